@@ -221,6 +221,11 @@ Fixpoint all_graphs (nU nV : nat) : list graph :=
   | S k => flat_map (fun row => map (cons row) (all_graphs k nV)) (subsets (seq 0 nV))
   end.
 
+(* a scipy CSR/CSC matrix: the python slice  indices[indptr[i]:indptr[i + 1]]  = the column (row) labels of the
+   entries of row (column) i.  Gen/CoverAdj.v (generated from _decompose_graph) builds `bigraph` from it. *)
+Definition sparse_slice (indices indptr : list nat) (i : nat) : list nat :=
+  firstn (nth (S i) indptr 0 - nth i indptr 0) (skipn (nth i indptr 0) indices).
+
 (* ------------------------------------------------------------------ _decompose_graph orientation
    [inc] = adjacency of the incidence matrix non_red by rows; nrow = len(inc), ncol its column count.
      if nrow < ncol:  rowbool, colbool = cover(rows as U)
